@@ -29,7 +29,7 @@ ASSUMPTIONS = [
     "after an injected chain corruption only reads are issued; len/list on a cyclic chain must raise, every read must finish within the line-event budget",
     "an empty list is a head node that carries no rdf:first/rdf:rest triple",
 ]
-PROBES = ["delete-head", "delete-only", "delete-last", "delete-middle", "falsy-member-read", "index-one-past", "append-after-clear", "fault-cycle", "fault-no-rest", "fault-two-rests", "fault-no-first", "duplicate-member"]
+PROBES = ["delete-head", "delete-only", "delete-last", "delete-middle", "falsy-member-read", "index-one-past", "append-after-clear", "fault-cycle", "fault-no-rest", "fault-two-rests", "fault-no-first", "duplicate-member", "two-collection-handles"]
 KNOWN_PREDICATES = {
     # c[len(c)] = v does not raise: it writes (rdf:nil rdf:first v) (or, on an empty list, a head cell without rdf:rest)
     "C19-setitem-one-past-the-end-writes": lambda f: f.get("i") == f.get("n") and f.get("raised") is False,
@@ -73,6 +73,9 @@ def generate(seed, tier):
         "init": init,
         "noise": g.chance(0.7),
         "other_list": g.chance(0.5),
+        # where the list lives and through how many Collection objects it is driven
+        "graph": g.choice(["graph", "graph", "dataset-default", "dataset-named", "conjunctive"]),
+        "handles": g.choice([1, 1, 2]),
     }
     w = {"append": g.choice([1, 3]), "iadd": g.choice([0, 1]), "set": g.choice([1, 2]), "del": g.choice([1, 3, 5]), "clear": g.choice([0, 1]), "read": g.choice([2, 4])}
     fault_at = g.randrange(nsteps) if g.chance(0.35) else None
@@ -86,7 +89,7 @@ def generate(seed, tier):
         kind = g.weighted(list(w.items()))
         if fault_at is not None and i > fault_at:
             kind = "read"
-        op = {"uid": uid, "k": kind}
+        op = {"uid": uid, "k": kind, "h": g.randrange(2)}
         if kind == "append":
             op["v"] = g.pick(vals)
             n += 1
@@ -129,7 +132,25 @@ def execute(trace, ctx):
     from rdflib.term import BNode, URIRef
 
     cfg = trace["config"]
-    g = Graph()
+    gk = cfg.get("graph", "graph")
+    if gk == "graph":
+        g = Graph()
+        g_alt = Graph(g.store, g.identifier)
+    else:
+        from rdflib import ConjunctiveGraph, Dataset
+        from rdflib.term import URIRef as _U
+
+        top = Dataset() if gk.startswith("dataset") else ConjunctiveGraph()
+        if gk == "dataset-named":
+            g = top.graph(_U("http://ex.org/listgraph"))
+            g_alt = top.graph(_U("http://ex.org/listgraph"))  # Dataset.graph() hands out a new Graph object every time
+        elif gk == "dataset-default":
+            g = top.default_graph
+            g_alt = Graph(top.store, top.default_graph.identifier)
+        else:
+            g = top.default_context
+            g_alt = Graph(top.store, g.identifier)
+        ctx.probe("list-in-" + gk)
     head = T(cfg["head"])
     model = [skey(v) for v in cfg["init"]]
     noise = set()
@@ -150,6 +171,11 @@ def execute(trace, ctx):
             g.add((cells[i], RDF.first, T(v)))
             g.add((cells[i], RDF.rest, cells[i + 1] if i + 1 < len(cfg["init"]) else RDF.nil))
         c = Collection(g, head)
+    # a second Collection object on the same head, over another Graph object on the same data
+    c_alt = Collection(g_alt, head)
+    handles = [c, c_alt] if cfg.get("handles", 1) == 2 else [c, c]
+    if cfg.get("handles", 1) == 2:
+        ctx.probe("two-collection-handles")
     FIRST, REST, NIL = ("u", RDFNS + "first"), ("u", RDFNS + "rest"), ("u", RDFNS + "nil")
 
     def chain_check(where):
@@ -190,6 +216,7 @@ def execute(trace, ctx):
 
     def read(op, corrupted):
         k = op["k"]
+        c = handles[op.get("h", 0) % 2]
         try:
             with ctx.budget(READ_BUDGET if corrupted else READ_BUDGET * 4, "read"):
                 if k == "len":
@@ -210,10 +237,12 @@ def execute(trace, ctx):
 
     chain_check("initial")
     corrupted = None
+    members_at_fault = set()
     after_clear = False
     for op in trace["ops"]:
         k = op["k"]
         ctx.op("", k)
+        c = handles[op.get("h", 0) % 2]
         if k == "corrupt":
             cells = []
             cur = head
@@ -237,6 +266,7 @@ def execute(trace, ctx):
             elif how == "no-first":
                 g.remove((at, RDF.first, None))
             corrupted = how
+            members_at_fault = set(model)
             ctx.fault("chain-" + how)
             ctx.probe("fault-" + how)
             ctx.log("corrupt", f"{how} at {op['at']}")
@@ -252,6 +282,9 @@ def execute(trace, ctx):
                 continue
             if corrupted == "cycle" and k in ("len", "list"):
                 ctx.check(r[0] == "raise", "C19.cycle-read-returns", lambda: f"{k} on a cyclic chain returned {r} instead of raising")
+            if corrupted == "cycle" and k in ("in", "index") and skey(op["v"]) not in members_at_fault:
+                # the member is in no cell of the chain: no answer can be given without walking the whole (endless) chain
+                ctx.check(r[0] == "raise", "C19.cycle-read-returns", lambda: f"{k}({op['v']}) for a term that is not in the cyclic chain returned {r} instead of raising", read=k)
             ctx.log(k, f"after-fault {r[0]}")
             continue
         n = len(model)
